@@ -93,6 +93,10 @@ func alpnMarshaller(input []byte) ([]byte, error) {
 	buf.Grow(len(input) + len(alpns))
 
 	for _, alpn := range alpns {
+		// alpn-id = 1*255OCTET, prefixed by a one-byte length
+		if len(alpn) == 0 || len(alpn) > 255 {
+			return nil, fmt.Errorf("alpn id %q must be 1 to 255 bytes long", alpn)
+		}
 		buf.WriteByte(byte(len(alpn)))
 		buf.Write(alpn)
 	}
